@@ -172,11 +172,14 @@ def run_coll(texts, allow_incomplete, strict, how='strings', tmpdir=None, again=
                     mc = moscollection.MosCollection.from_strings(texts, allow_incomplete=allow_incomplete)
                 elif how == 'files':
                     paths = []
+                    written = {}
                     for i, t in enumerate(texts):
-                        p = os.path.join(tmpdir, 'f%04d.mos.xml' % i)
-                        with open(p, 'wb') as f:
-                            f.write(encode_doc(t))
-                        paths.append(p)
+                        # a document supplied twice is one file listed twice
+                        if t not in written:
+                            written[t] = os.path.join(tmpdir, 'f%04d.mos.xml' % i)
+                            with open(written[t], 'wb') as f:
+                                f.write(encode_doc(t))
+                        paths.append(written[t])
                     mc = moscollection.MosCollection.from_files(paths, allow_incomplete=allow_incomplete)
                 elif how == 's3':
                     mc = moscollection.MosCollection.from_s3(bucket_name='b', prefix='ro/', allow_incomplete=allow_incomplete)
